@@ -23,6 +23,9 @@ def std_project(scroot, name="p", rng=None, rich_outputs=False, disable_git=True
         T("", "d1", "run_experiment", ["//a:e2", "//:e1"]),
         T("", "d2", "run_experiment", ["//:e1", "//a:e2"]),
         T("", "dd", "group", ["//:d1", "//:d2", "//a:e2", "//:e1"]),
+        # nothing archivable in these closures
+        T("c-d", "solo", "run_command"),
+        T("", "plain", "group", ["//c-d:solo"]),
     ]
     scripts = {}
     for t in tasks:
